@@ -150,9 +150,15 @@ def pubWorldOp (j : Json) : Except String Res := do
       | _ => true
     | _ => true
   let authors := all.all authorsOk
+  -- C10: the listing delivers the items of the pages, each once, in order (ids and kinds of the
+  -- delivered entries against the harvest of the model over the same world)
+  let shape (k : Json) : Json := Json.arr #[(k.getObjVal? "k").toOption.getD Json.null, (k.getObjVal? "id").toOption.getD Json.null]
+  let kidsM : List Json := match (Json.mkObj fields).getObjVal? "children" with | .ok (Json.arr a) => a.toList | _ => []
+  let pagesOk := kidsI.map shape == kidsM.map shape &&
+    (impl.getObjVal? "more").toOption == ((Json.mkObj fields).getObjVal? "more").toOption
   pure { model := Json.mkObj fields,
          preds := [("served_by_the_host_in_its_id", prov), ("listed_entries_are_genuine", genuine),
-                   ("authors_share_the_posts_host", authors)],
+                   ("authors_share_the_posts_host", authors), ("listing_is_the_pages_items_in_order", pagesOk)],
          nontrivial := kidsI.length ≥ 1 || (match impl.getObjVal? "parents" with | .ok (Json.arr a) => a.size ≥ 1 | _ => false) }
 
 end Ops
